@@ -5,6 +5,7 @@ from . import rng as R
 from .gen import draw_cfg, gen_op
 from .history import default_probes, new_world, run_step
 from .ops import make_plan
+from .ops_store import cleanup_world
 from .model import canon
 from .world import HarnessError, Violation
 
@@ -70,6 +71,7 @@ def history_run(base_seed: int, prop: str, index: int, tier: str, *, nt=None,
         for s in w.slots:
             if s is not None:
                 res.states.add(R.digest(canon(s.model.root, w.sym)))
+    cleanup_world(w)
     return res
 
 
